@@ -1,6 +1,6 @@
 """C05 -- critical failure aborts at once."""
 
-from . import runrules
+from . import runrules, shutrules
 
 
 def check(ctx, rep):
@@ -15,3 +15,4 @@ def check(ctx, rep):
     runrules.detection_exact(ctx, rep, "R05.1")
     runrules.exit_discipline(ctx, rep, "R05.3", "R05.3", "R05.3", causes=('critical',))
     runrules.tidy_shape(ctx, rep, "R05.4")
+    shutrules.cancellation_edges(ctx, rep, "R05.5")
